@@ -570,6 +570,7 @@ func runC19(c *Ctx, r *Report) {
 	c19PerFileState(c, r)
 	c19Encodings(c, r)
 	c19ParserKeepsNothing(c, r)
+	c19RefuseUpFront(c, r)
 }
 
 func isStringType(t types.Type) bool {
@@ -1011,4 +1012,69 @@ func c19ParserKeepsNothing(c *Ctx, r *Report) {
 		r.OK("R19.10", "no store to a package variable in package climain", "", fmt.Sprintf("%d functions examined", n))
 	}
 	r.Floor("R19.10", "functions of package climain examined", n, 10)
+}
+
+// R19.11: what cannot be updated in place is refused before anything is
+// modified. The function that processes the files one after the other first
+// walks all the names through the refusal tests (URL / prepipe, and the
+// encodings that cannot be written back) in a loop of its own.
+func c19RefuseUpFront(c *Ctx, r *Report) {
+	r.Rule("R19.11", "refusals come before the first modification: in the function whose loop calls processFileInPlace for every file, a separate loop that comes first (its header dominates the other's) calls lib.IsUpdateableInPlace and lib.FindInputEncoding for every name and can return an error — with the tests made only when a file's turn comes, the files before an input that is refused have already been rewritten")
+	n := 0
+	for _, fn := range c.ModuleFunctions() {
+		if fn.Pkg == nil || fn.Blocks == nil || !strings.HasSuffix(fn.Pkg.Pkg.Path(), "/pkg/entrypoint") {
+			continue
+		}
+		loops := naturalLoops(fn)
+		for _, l2 := range loops {
+			modifies := false
+			for b := range l2.Blocks {
+				for _, in := range b.Instrs {
+					if call, ok := in.(*ssa.Call); ok && strings.HasSuffix(CalleeName(&call.Call), ".processFileInPlace") {
+						modifies = true
+					}
+				}
+			}
+			if !modifies {
+				continue
+			}
+			n++
+			ok := false
+			for _, l1 := range loops {
+				if l1 == l2 || !l1.Header.Dominates(l2.Header) || l1.Blocks[l2.Header] {
+					continue
+				}
+				upd, enc, ret := false, false, false
+				for b := range l1.Blocks {
+					for _, in := range b.Instrs {
+						if call, ok := in.(*ssa.Call); ok {
+							cn := CalleeName(&call.Call)
+							if strings.HasSuffix(cn, "lib.IsUpdateableInPlace") {
+								upd = true
+							}
+							if strings.HasSuffix(cn, "lib.FindInputEncoding") || strings.HasSuffix(cn, "lib.WrapOutputHandle") {
+								enc = true
+							}
+						}
+					}
+					for _, s := range b.Succs {
+						if !l1.Blocks[s] && b != l1.Header {
+							if _, isRet := s.Instrs[len(s.Instrs)-1].(*ssa.Return); isRet {
+								ret = true
+							}
+						}
+					}
+					if _, isRet := b.Instrs[len(b.Instrs)-1].(*ssa.Return); isRet {
+						ret = true
+					}
+				}
+				if upd && enc && ret {
+					ok = true
+				}
+			}
+			r.Check(ok, "R19.11", SSAName(fn)+": per-file loop", c.Rel(fn.Pos()), "preceded by a loop that applies the refusal tests to every name",
+				fmt.Sprintf("%s rewrites the files one after the other with no earlier pass over all the names through IsUpdateableInPlace and the encoding test: an input that is refused is found only after the files before it have been modified", SSAName(fn)))
+		}
+	}
+	r.Floor("R19.11", "loops over processFileInPlace", n, 1)
 }
